@@ -246,3 +246,33 @@ pub fn max_send_data(server: bool, raw_id: u64, uni: u64, bidi_local: u64, bidi_
     core::mem::forget(st);
     1
 }
+
+/// Native replay body for the E2 query `e2_stream_freed` (never run under Kani: it populates the
+/// real hash maps).  A remotely-initiated stream gives its concurrency slot back exactly when
+/// the half being freed was the last one: unidirectional, or the other half's map entry is gone.
+pub fn stream_freed_native(server: bool, raw_id: u64, half_recv: bool, other_present: bool) -> u32 {
+    if raw_id >= V62 {
+        return 0;
+    }
+    let id = crate::StreamId(raw_id);
+    let mut st = mk_streams(&Scalars { server, allocated_remote_count: [5, 5], max_concurrent_remote_count: [0, 0], max_remote: [9, 9], ..Default::default() });
+    st.send_streams = 3;
+    let half = if half_recv { StreamHalf::Recv } else { StreamHalf::Send };
+    if other_present {
+        // the other half of the stream is still alive
+        if half_recv {
+            st.send.insert(id, None);
+        } else {
+            st.recv.insert(id, None);
+        }
+    }
+    st.stream_freed(id, half);
+    let remote = (raw_id & 1 == 1) != server;
+    let uni = raw_id & 2 != 0;
+    let dir = if uni { 1 } else { 0 };
+    let released = remote && (uni || !other_present);
+    assert!(st.allocated_remote_count[dir] == if released { 4 } else { 5 }, "concurrency slot released at the wrong time");
+    assert!(st.allocated_remote_count[1 - dir] == 5);
+    assert!(st.send_streams == if half_recv { 3 } else { 2 });
+    1
+}
